@@ -35,7 +35,7 @@ def main():
                 own_tot += 1; own_hit += o in ('R', 'U')
         lines.append(f"| {name} | {o} | " + ' | '.join(cells) + f" | {what} |")
     lines.append('')
-    lines.append(f"Own-check detection: {own_hit} of {own_tot} seeded changes (neutralised ones excluded); every reverted fix is reported by the check that found the defect.  Cells of the slow checks (C03, C09, C10, C13, C14, C20) that were silent in an earlier complete run were not all re-run for the last engine version (`seed_matrix.py --reduced`); every other cell is from the final version.")
+    lines.append(f"Own-check detection: {own_hit} of {own_tot} seeded changes (neutralised ones excluded); every reverted fix is reported by the check that found the defect.  Cells of the slow checks (C03, C09, C10, C13, C14, C20) that were silent in an earlier complete run were not all re-run for the last engine version (`seed_matrix.py --reduced`); every own-check cell and every cell of a reverted fix is from the final version, the other cells from the version before the last round of fixes (8.5, round 5).")
     bp = os.path.join(V, 'selftest', 'benign_matrix.json')
     if os.path.exists(bp):
         b = json.load(open(bp))
@@ -43,7 +43,7 @@ def main():
         loud = [(n, c) for n, r in b.items() for c in checks if isinstance(r.get(c), dict) and r[c].get('rc') != 0]
         lines.append('')
         lines.append(f"Behaviour-preserving refactors (`selftest/benign/`): {len(b)} patches x {len(checks)} checks = {tot} runs, {len(loud)} alarms" + (': ' + ', '.join(f'{n}/{c}' for n, c in loud[:20]) if loud else '.')
-                     + "  (All cells of the fast checks and every cell of the fourth-round patches are from the final engine version; cells of the slow checks that were silent in an earlier complete run were not all re-run.)  The alarms on r2w1_2 are the accepted limitation of 8.7 (`flat_map`).")
+                     + "  (All cells of the fast checks are from the final engine version; cells of the slow checks that were silent in an earlier complete run were not all re-run.)  The alarms on r2w1_2 (`flat_map`) and r5w2_2 (`with_capacity` + `push`) are the accepted limitations of 8.7.")
     block = '\n'.join(lines)
     p = os.path.join(V, 'DESIGN.md')
     s = open(p).read()
